@@ -20,7 +20,7 @@ from sim.world import Run
 
 ID = "C35"
 LEVEL = "exploration"
-RUNS = {"quick": 20000, "thorough": 300000}
+RUNS = {"quick": 20000, "thorough": 1800000}
 BUDGET = {"quick": 100.0, "thorough": 3300.0}
 RULE = ("one run = 1-6 Switch devices with seeded sync_state policies (init / expire n / every n / True / number / False) "
         "and answer latencies, and a seeded history of connection changes, state telegrams, command-address telegrams and "
